@@ -225,6 +225,8 @@ pub fn exec(op: &str, t: &mut Toks, cx: &mut Ctx) -> Option<String> {
     match op { "mesh1_hist" => Some(mesh1_hist(t, cx)), "mesh2_hist" => Some(mesh2_hist(t, cx)), "mesh1_num" => Some(mesh1_num(t, cx)), "mesh2_num" => Some(mesh2_num(t, cx)), _ => None }
 }
 
+/// increasing NEARLY uniform dyadic grid: spacings 2^-6 + k 2^-24 (k = 0..3), i.e. differing by less than 1e-7
+fn grid_near_uniform(rng: &mut Rng, n: usize) -> Vec<f64> { let mut x = rng.range(-4, 4) as f64 / 4.0; let mut v = Vec::new(); for _ in 0..n { v.push(x); x += 1.0 / 64.0 + rng.below(4) as f64 / 16777216.0; } v }
 /// increasing non-uniform dyadic grid with spacing >= 1/64
 fn grid(rng: &mut Rng, n: usize) -> Vec<f64> { let mut x = rng.range(-8, 8) as f64 / 4.0; let mut v = Vec::new(); for _ in 0..n { v.push(x); x += (1 + rng.below(40)) as f64 / 16.0; } v }
 
@@ -278,5 +280,11 @@ pub fn gen(rng: &mut Rng, tier: Tier, out: &mut Vec<String>) {
         let mut s = format!("mesh2_num {} {} {} {}", wr_vec(&grid(rng, nx)), wr_vec(&grid(rng, ny)), nv2, if bil { "bilinear" } else { "general" });
         for e in &exprs { s.push(' '); s.push_str(&e.show()); }
         out.push(s);
+        // nearly uniform (but not uniform) grids: spacings differ by less than 1e-7 — every cell must still enter with ITS width
+        if k % 3 == 0 {
+            let mut s = format!("mesh2_num {} {} {} general", wr_vec(&grid_near_uniform(rng, nx)), wr_vec(&grid_near_uniform(rng, ny)), nv2);
+            for e in &exprs { let g = if bil { Expr::Add(Box::new(e.clone()), Box::new(Expr::Sin(Box::new(Expr::Var(0))))) } else { e.clone() }; s.push(' '); s.push_str(&g.show()); }
+            out.push(s);
+        }
     }
 }
